@@ -94,10 +94,10 @@ def coq_closure(roots):
             continue
         seen.add(f)
         code = strip_comments(open(f, errors="replace").read())
-        for m in re.finditer(r"From\s+Gnmi\s+Require\s+(?:Import|Export)?\s*([^.]*(?:\.[A-Za-z][^.\s]*)*)\s*\.", code):
+        for m in re.finditer(r"From\s+Gnmi\s+Require\s+(?:Import\s+|Export\s+)?(.*?)\.(?=\s|$)", code, flags=re.S):
             for mod in m.group(1).split():
                 todo.append(os.path.join(COQ, mod.replace(".", os.sep) + ".v"))
-        for m in re.finditer(r"Require\s+(?:Import|Export)?\s*((?:Gnmi\.[A-Za-z0-9_.]+\s*)+)\.", code):
+        for m in re.finditer(r"(?<!From Gnmi )Require\s+(?:Import\s+|Export\s+)?((?:Gnmi\.[A-Za-z0-9_.]+\s*)+)\.(?=\s|$)", code):
             for mod in m.group(1).split():
                 todo.append(os.path.join(COQ, mod[len("Gnmi."):].replace(".", os.sep) + ".v"))
     return sorted(seen)
